@@ -3,18 +3,23 @@
    monitor.CreateMonitor that drives them, of notify_all_producers_finished (with the
    kill-after-producers-done-delay timer), kill, isAlive and exitReason
    (python/experiment/runtime/engine.py, monitor.py).  Time is Z milliseconds.
-   The model is the code AFTER the two fix: commits (F13b launch failure, F13c idle kill delay);
-   the pinned behaviour of those two places is kept as act_pinned / suicide_pinned for Refuted.v. *)
+   The observer has a LIST of producers (canConsume looks at every same-stage producer, producersHaveOutputSinceDate
+   at any of them).  The model is the code AFTER the three fix: commits (F13 never-executed observer, F13b launch
+   failure, F13c idle kill delay); the pinned behaviour of those places is kept as isnew_pinned13 / act_pinned /
+   suicide_pinned for Refuted.v. *)
 From Coq Require Import ZArith List Bool.
 Import ListNotations.
 Open Scope Z_scope.
 
 (* ---- configuration of the observer *)
+Record prod := {
+  p_same : bool;          (* the producer is in the observer's stage (canConsume looks at its output) *)
+  p_rep : bool            (* the producer is itself repeating (otherwise producersHaveOutputSinceDate is always True) *)
+}.
+
 Record cfg := {
   c_retries : option Z;   (* workflowAttributes.repeatRetries (None -> 3) *)
-  c_has_prod : bool;      (* job.producerInstances is not empty *)
-  c_same_stage : bool;    (* the producer is in the observer's stage (canConsume looks at its output) *)
-  c_prod_rep : bool;      (* the producer is itself repeating (otherwise producersHaveOutputSinceDate is always True) *)
+  c_prods : list prod;    (* job.producerInstances, in order *)
   c_check_out : bool;     (* variable check-producer-output (default true) *)
   c_has_delay : bool;     (* variable kill-after-producers-done-delay is set *)
   c_interval : Z;         (* repeat interval, ms *)
@@ -29,7 +34,7 @@ Record exec := { x_launch : Z; x_pf : bool; x_rc : option Z }.
 
 Record st := {
   now : Z;                 (* the clock *)
-  lo : option Z;           (* time of the producers' latest output *)
+  lo : list (option Z);    (* per producer: time of its latest output (None: no output yet) *)
   consume : bool;          (* Engine._consume *)
   pf : bool;               (* _producers_are_finished *)
   suicide : bool;          (* _suicide *)
@@ -50,24 +55,39 @@ Record st := {
 Definition eff_retries (c : cfg) : Z := match c_retries c with Some r => r | None => 3 end.
 
 Definition init (c : cfg) : st :=
-  {| now := c_t0 c; lo := None; consume := false; pf := false; suicide := false; cancel := false; kc := false;
+  {| now := c_t0 c; lo := map (fun _ => None) (c_prods c); consume := false; pf := false; suicide := false; cancel := false; kc := false;
      retries := eff_retries c; ll := c_t0 c; has_proc := false; proc_re := false; last_fin := None;
      beginning := None; mon_done := false; armed := false; nact := 0; execs := [] |}.
 
 Definition is_some {A} (o : option A) : bool := match o with Some _ => true | None => false end.
 
-(* Engine.canConsume: every same-stage producer has output *)
-Definition can_consume (c : cfg) (s : st) : bool :=
-  negb (c_has_prod c) || negb (c_same_stage c) || is_some (lo s).
+Definition is_nil {A} (l : list A) : bool := match l with [] => true | _ => false end.
+Definition c_has_prod (c : cfg) : bool := negb (is_nil (c_prods c)).   (* bool(job.producerInstances) *)
 
-(* Job.producersHaveOutputSinceDate(lastLaunched) *)
-Definition newout (c : cfg) (s : st) : bool :=
-  c_has_prod c && (negb (c_prod_rep c) || match lo s with Some l => l >? ll s | None => false end).
+(* the output record of producer i; a producer without a record has no output *)
+Definition lo_of (los : list (option Z)) (i : nat) : option Z := nth i los None.
 
-(* isNewOutput of EngineTaskController, with the 20 second forcing rule *)
+(* Engine.canConsume: EVERY same-stage producer has output *)
+Fixpoint can_consume_l (ps : list prod) (los : list (option Z)) : bool :=
+  match ps with
+  | [] => true
+  | p :: ps' => (negb (p_same p) || is_some (hd None los)) && can_consume_l ps' (tl los)
+  end.
+Definition can_consume (c : cfg) (s : st) : bool := can_consume_l (c_prods c) (lo s).
+
+(* Job.producersHaveOutputSinceDate(lastLaunched): SOME producer is not repeating or has output newer than the date *)
+Fixpoint newout_l (ps : list prod) (los : list (option Z)) (d : Z) : bool :=
+  match ps with
+  | [] => false
+  | p :: ps' => (negb (p_rep p) || match hd None los with Some l => l >? d | None => false end) || newout_l ps' (tl los) d
+  end.
+Definition newout (c : cfg) (s : st) : bool := newout_l (c_prods c) (lo s) (ll s).
+
+(* isNewOutput of EngineTaskController: once the producers are finished an observer that has never launched a
+   task takes whatever output there is as new (fix F13); otherwise the 20 second forcing rule *)
 Definition isnew (c : cfg) (s : st) : bool :=
   if negb (c_check_out c) then true
-  else if pf s && (now s - ll s >? 20000) then true
+  else if pf s && (is_nil (execs s) || (now s - ll s >? 20000)) then true
   else newout c s.
 
 Definition alive (s : st) : bool := negb (cancel s && (negb (has_proc s) || kc s)).
@@ -155,7 +175,14 @@ Definition poll (c : cfg) (s : st) (o : outcome) : st :=
     let s' := act c s o in if cancel s' then last_tick s' else s'
   else s.
 
-Definition set_time (s : st) (t : Z) (l : option Z) : st :=
+Fixpoint set_nth (i : nat) (v : option Z) (l : list (option Z)) {struct l} : list (option Z) :=
+  match l, i with
+  | [], _ => []
+  | _ :: r, O => v :: r
+  | x :: r, S k => x :: set_nth k v r
+  end.
+
+Definition set_time (s : st) (t : Z) (l : list (option Z)) : st :=
   {| now := t; lo := l; consume := consume s; pf := pf s; suicide := suicide s; cancel := cancel s;
      kc := kc s; retries := retries s; ll := ll s; has_proc := has_proc s; proc_re := proc_re s;
      last_fin := last_fin s; beginning := beginning s; mon_done := mon_done s; armed := armed s;
@@ -170,7 +197,7 @@ Definition set_flags (s : st) (pf' suicide' cancel' kc' armed' : bool) : st :=
 
 Inductive event :=
 | Adv (dt : Z)        (* time passes (the monitor sleeps) *)
-| Out                 (* a producer writes output now *)
+| Out (i : nat)       (* producer i writes output now *)
 | Notify              (* notify_all_producers_finished() *)
 | Kill                (* kill() from outside *)
 | Suicide             (* the kill-after-producers-done-delay timer expires between two actions *)
@@ -186,7 +213,7 @@ Definition suicide_ev (s : st) : st :=
 Definition step (c : cfg) (s : st) (e : event) : st :=
   match e with
   | Adv dt => set_time s (now s + dt) (lo s)
-  | Out => set_time s (now s) (Some (now s))
+  | Out i => set_time s (now s) (set_nth i (Some (now s)) (lo s))
   | Notify => notify c s
   | Kill => set_flags s (pf s) (suicide s) true (kc s) (armed s)
   | Suicide => suicide_ev s
@@ -195,7 +222,26 @@ Definition step (c : cfg) (s : st) (e : event) : st :=
 
 Definition run (c : cfg) (s : st) (evs : list event) : st := fold_left (step c) evs s.
 
-(* ---- the two pinned (pre-fix) behaviours, for Refuted.v *)
+(* ---- the pinned (pre-fix) behaviours, for Refuted.v *)
+(* F13: before the fix only the 20 second rule could force an execution once the producers were finished *)
+Definition isnew_pinned13 (c : cfg) (s : st) : bool :=
+  if negb (c_check_out c) then true
+  else if pf s && (now s - ll s >? 20000) then true
+  else newout c s.
+Definition act_pinned13 (c : cfg) (s : st) (o : outcome) : st :=
+  if suicide s then act c s o
+  else if (consume s || can_consume c s) && (isnew_pinned13 c s || negb (c_has_prod c))
+  then post (launched c s o) (pf s) (negb (o_fail o) && (o_rc o =? 0))
+  else post (not_launched c s) (pf s) false.
+Definition poll_pinned13 (c : cfg) (s : st) (o : outcome) : st :=
+  if mon_done s then s
+  else if cancel s then last_tick s
+  else if sched c s then
+    let s' := act_pinned13 c s o in if cancel s' then last_tick s' else s'
+  else s.
+Definition step_pinned13 (c : cfg) (s : st) (e : event) : st :=
+  match e with Poll o => poll_pinned13 c s o | _ => step c s e end.
+
 (* F13c: the timer found self.process set (a finished task) and only signalled it *)
 Definition suicide_pinned (s : st) : st :=
   if armed s then
@@ -278,3 +324,67 @@ Definition check_case2 (k : cfg * list sstep2 * (list obs * bool * list exec)) :
   let '(c, l, (os, fin, xs)) := k in
   let '(os', s) := run_steps2 c (init c) l in
   list_eqb obs_eqb os os' && eqb fin (mon_done s) && list_eqb exec_eqb xs (rev (execs s)).
+
+(* ---- an explicit model of the producers: a producer writes only while it is alive; the producers-finished
+   notification is delivered when the last living producer finishes (reactivex.merge of the producers'
+   notifyFinished completes when all of them have completed: ComponentState.stageIn) *)
+Inductive pevent :=
+| PWrite (i : nat)    (* producer i is asked to write output now: only a living producer does *)
+| PFinish (i : nat)   (* producer i finishes *)
+| PEnv (e : event).   (* everything that is not the producers' doing: the clock, polls, the timer, kills *)
+
+Fixpoint set_b (i : nat) (v : bool) (l : list bool) {struct l} : list bool :=
+  match l, i with
+  | [], _ => []
+  | _ :: r, O => v :: r
+  | x :: r, S k => x :: set_b k v r
+  end.
+Definition is_alive (al : list bool) (i : nat) : bool := nth i al false.
+Definition all_dead (al : list bool) : bool := forallb negb al.
+
+(* what the observer's engine sees of a history of its producers *)
+Fixpoint compile (al : list bool) (pes : list pevent) : list event :=
+  match pes with
+  | [] => []
+  | PWrite i :: r => if is_alive al i then Out i :: compile al r else compile al r
+  | PFinish i :: r =>
+      if is_alive al i then
+        let al' := set_b i false al in
+        if all_dead al' then Notify :: compile al' r else compile al' r
+      else compile al r
+  | PEnv e :: r => e :: compile al r
+  end.
+
+(* ComponentState.stageIn subscribes to the producers that are alive then; with none it notifies at once *)
+Definition ptrace_from (al : list bool) (pes : list pevent) : list event :=
+  if all_dead al then Notify :: compile al pes else compile al pes.
+Definition ptrace (c : cfg) (pes : list pevent) : list event := ptrace_from (map (fun _ => true) (c_prods c)) pes.
+
+(* the producers still alive after a history *)
+Fixpoint alive_after (al : list bool) (pes : list pevent) : list bool :=
+  match pes with
+  | [] => al
+  | PFinish i :: r => alive_after (if is_alive al i then set_b i false al else al) r
+  | _ :: r => alive_after al r
+  end.
+
+(* scripts at the level of the producers: the clock advance of the sleep, what the producers and the rest of the
+   environment do during it, the outcome available to the poll that follows; the correspondence runs these
+   through the REAL ComponentState.stageIn subscription (reactivex.merge of the producers' notifyFinished) *)
+Definition sstep3 := (Z * list pevent * outcome)%type.
+
+Fixpoint run_steps3 (c : cfg) (al : list bool) (s : st) (l : list sstep3) : list obs * st :=
+  match l with
+  | [] => ([], s)
+  | (dt, pes, o) :: r =>
+      let s1 := poll c (run c (step c s (Adv dt)) (compile al pes)) o in
+      let '(os, s2) := run_steps3 c (alive_after al pes) s1 r in (observe s1 :: os, s2)
+  end.
+
+(* case = (cfg, producers alive at stageIn, script, (observations, monitor returned, launches oldest first)) *)
+Definition check_case3 (k : cfg * list bool * list sstep3 * (list obs * bool * list exec)) : bool :=
+  let '(c, al, l, (os, fin, xs)) := k in
+  let s0 := if all_dead al then step c (init c) Notify else init c in
+  let '(os', s) := run_steps3 c al s0 l in
+  list_eqb obs_eqb os os' && eqb fin (mon_done s) && list_eqb exec_eqb xs (rev (execs s)).
+
